@@ -235,6 +235,27 @@ func checkC09(c *Check) {
 	}
 
 	// ---- R3
+	// the answer's header list is the answer's own: a response whose Headers share the backing array of a
+	// package-level slice is rewritten by whichever check appends next
+	nHdr := 0
+	for _, hf := range R.HandlerFuncs {
+		for _, b := range hf.Blocks {
+			for _, ins := range b.Instrs {
+				st, ok := ins.(*ssa.Store)
+				if !ok {
+					continue
+				}
+				fa, isF := st.Addr.(*ssa.FieldAddr)
+				if !isF || (fieldAddrID(fa) != idDenied+".Headers" && fieldAddrID(fa) != idOkHTTP+".Headers") {
+					continue
+				}
+				nHdr++
+				shared := sharesGlobalBacking(st.Val, 0)
+				c.Obl(!shared, "C09.R3", "headers-own-backing/"+fnKey(hf)+fmt.Sprintf("#%d", nHdr), P.Pos(st.Pos()), "the response's header list is built by appending to the response's own (initially empty) list",
+					"a response's Headers can share the backing array of a package-level slice: headers appended for one answer (Location, Set-Cookie) are overwritten by the next check's")
+			}
+		}
+	}
 	// the discovered end-session endpoint is the one of this filter's own discovery document
 	discoveryCacheKeyRule(c, "C09.R3")
 	if answer != nil {
@@ -427,4 +448,40 @@ func checkC09(c *Check) {
 		}
 	}
 	c.Obl(nR4 >= 2, "C09.R4", "creating-writes", "-", fmt.Sprintf("%d creating token writes analysed", nR4), "creating token writes not found")
+}
+
+// sharesGlobalBacking: the slice value can share its backing array with a package-level slice (the global
+// itself, a reslice of it, or an append whose first operand does).
+func sharesGlobalBacking(v ssa.Value, depth int) bool {
+	if depth > 6 {
+		return false
+	}
+	switch x := stripConv(v).(type) {
+	case *ssa.UnOp:
+		if x.Op == token.MUL {
+			if _, isG := x.X.(*ssa.Global); isG {
+				return true
+			}
+			if al, isA := x.X.(*ssa.Alloc); isA {
+				for _, st := range storesTo(al) {
+					if sharesGlobalBacking(st.Val, depth+1) {
+						return true
+					}
+				}
+			}
+		}
+	case *ssa.Slice:
+		return sharesGlobalBacking(x.X, depth+1)
+	case *ssa.Phi:
+		for _, e := range x.Edges {
+			if sharesGlobalBacking(e, depth+1) {
+				return true
+			}
+		}
+	case *ssa.Call:
+		if b, ok := x.Call.Value.(*ssa.Builtin); ok && b.Name() == "append" && len(x.Call.Args) > 0 {
+			return sharesGlobalBacking(x.Call.Args[0], depth+1)
+		}
+	}
+	return false
 }
